@@ -72,7 +72,7 @@ def install(ns, prop, level, oracles, bounds, assumptions, extra_tasks=None, ext
             if spec[0] == 'alpha':
                 return {'enumeration': 'all histories over ' + spec[1], 'configs': len(spec[2]), 'depth': spec[3]}
             if spec[0] == 'big':
-                return {'enumeration': 'fixed list of histories with files of 0xfffff800-1 .. 2*0xfffff800+5 bytes on virtual devices (mc/bigfile.py); a list, not an alphabet',
+                return {'enumeration': 'fixed list of histories with files of 0xfffff800-1 .. 2*0xfffff800+5 bytes on virtual devices (mc/bigfile.py; gen2-/gen3- cases reopen the virtual image, edit it, and re-master the result once more); a list, not an alphabet',
                         'cases': list(spec[1])}
             if spec[0] == 'reopen':
                 return {'enumeration': 'base images of mc/ops.py:reopen_bases . REOPEN . all histories over sigma1/reopen (further REOPENs allowed)',
@@ -108,6 +108,7 @@ ALPHABETS = {
 
 
 BIG_ISO = ['iso-lim-1', 'iso-lim', 'iso-lim+1', 'iso-4g+2049', 'iso-2lim+5', 'add-rm-add', 'link', 'level1-refused']
+BIG_GEN2 = ['gen2-iso-lim+1', 'gen2-iso-4g+2049', 'gen2-joliet-rm-big', 'gen2-rr-link', 'gen3-iso-2lim+5', 'gen2-udf-lim-1']
 BIG_UDF = ['all-lim+1', 'rr-udf-lim+1', 'all-4g+2049', 'rr-udf-4g+2049', 'udf-only-4g', 'udf-only-2lim+5', 'udf-only-link']
 
 
